@@ -7,17 +7,35 @@ def ghost(name, params, src):
     REG.ghost[name] = (list(params), src)
 
 
+from . import types as _T
+
+
 def fields(**kw):
-    REG.fields.update(kw)
+    for k, v in kw.items():
+        v = _T.with_region(v, k)
+        _T.note_regions(v)
+        REG.fields[k] = v
 
 
 def fields_of(cls, **kw):
     for k, v in kw.items():
+        v = _T.with_region(v, f"{cls}.{k}")
+        _T.note_regions(v)
         REG.fields[f"{cls}.{k}"] = v
 
 
 def attrs(**kw):
-    REG.attrs.update(kw)
+    for k, v in kw.items():
+        v = _T.with_region(v, "@" + k)
+        _T.note_regions(v)
+        REG.attrs[k] = v
+
+
+def local(ty, region):
+    """Type of a local container: gets its own heap region."""
+    v = _T.with_region(ty, "local:" + region)
+    _T.note_regions(v)
+    return v
 
 
 def klass(name, **kw):
